@@ -328,8 +328,8 @@ def primitive_fields(node):
     for field, value in ast.iter_fields(node):
         if field in PRIMITIVE_SKIP:
             continue
-        if isinstance(value, ast.AST) or (isinstance(value, list) and (not value or isinstance(value[0], ast.AST))):
-            continue
+        if isinstance(value, ast.AST) or (isinstance(value, list) and (not value or any(isinstance(v, ast.AST) for v in value))):
+            continue        # child nodes (Dict.keys may start with None for a ** entry and still be a list of nodes)
         if isinstance(value, list):
             out[field] = tuple(value)
         else:
